@@ -978,3 +978,14 @@ V("power chain with the edge reversed keeps the product (twin)", "C06", "geomete
 V("from_points normalised by the corner entry", "C08", TRANS, "        return cls(t2.dot(np.linalg.inv(t1)))", "        t = t2.dot(np.linalg.inv(t1))\n        return cls(t / t[-1, -1], copy=False)", "E6.K11", "from_points", quick=True)
 V("twin: from_points scaled by a constant", "C08", TRANS, "        return cls(t2.dot(np.linalg.inv(t1)))", "        t = t2.dot(np.linalg.inv(t1))\n        return cls(t / 2, copy=False)", "silent")
 V("twin: from_points divided by the norm of the matrix", "C08", TRANS, "        return cls(t2.dot(np.linalg.inv(t1)))", "        t = t2.dot(np.linalg.inv(t1))\n        return cls(t / np.linalg.norm(t), copy=False)", "silent")
+
+
+# ------------------------------------------------------------------------------------------------ tangent / polar / dual as values (E19.polar, C14)
+V("is_tangent tests the hyperplane against the quadric itself", "C14", CURVE, "        return self.dual.contains(plane)", "        return self.contains(plane)", "E19.polar", "QuadricTensor", quick=True)
+V("dual keeps the dual flag", "C14", CURVE, "        return cls(inv(self.array), is_dual=not self.is_dual, copy=False)", "        return cls(inv(self.array), is_dual=self.is_dual, copy=False)", "E19.polar", "QuadricTensor")
+V("is_tangent as a sesquilinear form of the pole", "C14", CURVE, "        return self.dual.contains(plane)",
+  "        h = np.expand_dims(plane.array, -1)\n        pole = np.linalg.solve(self.array, h)\n        return np.isclose(np.squeeze(matmul(h, pole, adjoint_a=True), (-2, -1)), 0, atol=EQ_TOL_ABS)", "E19.polar", "QuadricTensor")
+V("twin: is_tangent as the bilinear form of the pole", "C14", CURVE, "        return self.dual.contains(plane)",
+  "        h = np.expand_dims(plane.array, -1)\n        pole = np.linalg.solve(self.array, h)\n        return np.isclose(np.squeeze(matmul(h, pole, transpose_a=True), (-2, -1)), 0, atol=EQ_TOL_ABS)", "silent")
+V("tangent from the conjugated point", "C14", CURVE, "        return PlaneCollection.from_array(matvec(self.array, at.array))", "        return PlaneCollection.from_array(matvec(self.array, np.conj(at.array)))", "E19.polar", "QuadricTensor")
+V("twin: tangent through the transposed matrix", "C14", CURVE, "        return PlaneCollection.from_array(matvec(self.array, at.array))", "        return PlaneCollection.from_array(matvec(self.array, at.array, transpose_a=True))", "silent")
